@@ -22,6 +22,7 @@ func init() {
 		ruleAcyclicView("M-acyclic-view"), ruleFlagSound("G-flag"), ruleAcyclicProvide("M-acyclic-provide"), ruleCycleErr("W-cycleerr"), ruleOrders("X-orders"), ruleDFS("G-dfs"),
 		ruleK1("K1"), ruleK2("K2"), ruleK3("K3"), ruleDupKey("G-dupkey"), ruleVisitExtract("X-visit-extract"),
 		ruleUnwrap("X-unwrap"), ruleForeignCause("T-foreign-cause"),
-		ruleP1("P1"), ruleRefl("E-REFL"), ruleAtomProvide("E-ATOM"), ruleAtomDecorate("E-ATOM"), ruleWOwners("W-owners"),
+		ruleP1("P1"), ruleRefl("E-REFL"),
+		ruleSwitch("X-switch"), ruleEncodings("X-encodings"), ruleInfo("X-info"), ruleViz("X-viz"), ruleScopes("W-scopes"), ruleInherit("X-inherit"), ruleOrderFree("W-orderfree"), ruleAtomProvide("E-ATOM"), ruleAtomDecorate("E-ATOM"), ruleWOwners("W-owners"),
 	}})
 }
